@@ -118,8 +118,11 @@ theorem afterRoundTrip_auto (cfg : Cfg) (st : Nat) (cks : List Bytes)
     afterRoundTrip cfg st (Body.transport cks .eof) =
       { status := st, err := none, cache := some cks.flatten,
         body := some (Body.restored cks.flatten), out := none } := by
-  simp [afterRoundTrip, autoRead, h1, h2, h3, hst, Resp.toBytes, Body.readAll_transport, Fin.toErr,
-    handleDownload, Body.close]
+  by_cases hr : cfg.result = true ∧ 199 < st ∧ st < 300 ∧ st ≠ 204
+  · simp [afterRoundTrip, autoRead, h1, h2, h3, hst, Resp.toBytes, Body.readAll_transport, Fin.toErr,
+      handleDownload, Body.close, parseResponseBody, hr]
+  · simp [afterRoundTrip, autoRead, h1, h2, h3, hst, Resp.toBytes, Body.readAll_transport, Fin.toErr,
+      handleDownload, Body.close, parseResponseBody, hr]
 
 /-- The bytes the caller pulled out of `Response.Body` during a run, in order. -/
 def streamedOf : List (Op × Obs) → Bytes
@@ -213,15 +216,18 @@ open Req.Proto
 /-! ### save to writer / file, and streaming without auto-read -/
 
 theorem afterRoundTrip_save (cfg : Cfg) (st : Nat) (cks : List Bytes) (h : cfg.save = true) :
-    afterRoundTrip cfg st (Body.transport cks .eof) =
-      { status := st, err := none, cache := none,
-        body := some { chunks := [], fin := .eof, closed := true, nop := false },
-        out := some cks.flatten } := by
-  simp [afterRoundTrip, autoRead, h, handleDownload, Body.readAll_transport, Fin.toErr, Body.close]
+    (afterRoundTrip cfg st (Body.transport cks .eof)).out = some cks.flatten ∧
+    (afterRoundTrip cfg st (Body.transport cks .eof)).err = none := by
+  by_cases hr : cfg.result = true ∧ 199 < st ∧ st < 300 ∧ st ≠ 204
+  · simp [afterRoundTrip, autoRead, h, handleDownload, Body.readAll_transport, Fin.toErr, Body.close,
+      parseResponseBody, hr, Resp.toBytes]
+  · simp [afterRoundTrip, autoRead, h, handleDownload, Body.readAll_transport, Fin.toErr, Body.close,
+      parseResponseBody, hr]
 
 theorem afterRoundTrip_stream (cfg : Cfg) (st : Nat) (cks : List Bytes) (fin : Fin)
     (hs : cfg.save = false)
-    (h : cfg.clientDisable = true ∨ cfg.reqDisable = true ∨ st ≤ 199) :
+    (h : cfg.clientDisable = true ∨ cfg.reqDisable = true ∨ st ≤ 199)
+    (hres : ¬ (cfg.result = true ∧ 199 < st ∧ st < 300 ∧ st ≠ 204)) :
     afterRoundTrip cfg st (Body.transport cks fin) =
       { status := st, err := none, cache := none, body := some (Body.transport cks fin), out := none } := by
   have : autoRead cfg { status := st, err := none, cache := none, body := some (Body.transport cks fin), out := none } = false := by
@@ -229,7 +235,7 @@ theorem afterRoundTrip_stream (cfg : Cfg) (st : Nat) (cks : List Bytes) (fin : F
     · simp [autoRead, h]
     · simp [autoRead, h]
     · simp [autoRead]; omega
-  simp [afterRoundTrip, this, handleDownload, hs]
+  simp [afterRoundTrip, this, handleDownload, hs, parseResponseBody, hres]
 
 /-- `ToBytes` on a response that was not auto-read returns what the stream still holds. -/
 theorem toBytes_rest (st : Nat) (bd : Body) (hc : bd.closed = false) (hf : bd.fin = .eof) :
